@@ -185,7 +185,13 @@ func (s *Server) Close() {
 	}
 }
 
+// validTableID is the form the API documents for table ids.
+var validTableID = regexp.MustCompile(`^[_a-zA-Z0-9][-_.a-zA-Z0-9]{0,49}$`)
+
 func (s *server) CreateTable(ctx context.Context, req *btapb.CreateTableRequest) (*btapb.Table, error) {
+	if !validTableID.MatchString(req.TableId) {
+		return nil, status.Errorf(codes.InvalidArgument, "invalid table id %q", req.TableId)
+	}
 	tbl := req.Parent + "/tables/" + req.TableId
 
 	s.mu.Lock()
